@@ -279,6 +279,27 @@ class Discharger:
             for m in names:
                 if m.startswith(n + "::"):
                     g.setdefault(n, set()).add(m)
+        # formatting: `x.to_string()`, `format!("{}", x)`, `write!(f, "{:?}", x)` run x's Display / Debug impl; the call goes through
+        # std (ToString's blanket impl, fmt::Arguments), so the edge to the crate's impl has to be added from the type named at the site
+        fmt_impls = {}
+        for h in fb.all("lib"):
+            if h.name.endswith("::fmt") and h.trait and h.self_ty and ("fmt::Display" in h.trait or "fmt::Debug" in h.trait):
+                fmt_impls.setdefault(("Display" if "Display" in h.trait else "Debug", mir.norm(h.self_ty).split("<")[0]), set()).add(h.name)
+        for h in fb.all("lib"):
+            for _, t in h.calls():
+                c = callee(t) or ""
+                gens = [str(x) for x in ((t.get("fn") or {}).get("generics") or [])]
+                kinds = ()
+                if c.endswith("ToString>::to_string") or c.endswith("ToString::to_string"):
+                    kinds = ("Display",)
+                elif "fmt::rt::Argument" in c and c.rsplit("::", 1)[-1] in ("new_display", "new_debug"):
+                    kinds = ("Display",) if c.endswith("new_display") else ("Debug",)
+                gens = [x for x in gens if not x.startswith("'")]
+                for kd in kinds:
+                    for ty in gens[:1]:
+                        base = mir.norm(ty.replace("&", "").strip()).split("<")[0]
+                        for tgt in fmt_impls.get((kd, base), ()):
+                            g.setdefault(h.name, set()).add(tgt)
         meths = {}
         for n in names:
             if n.startswith("<") or "<impl " in n:
